@@ -2,19 +2,37 @@
    consistent.  ONLY theorem statements closed by `exact` (+ Print Assumptions).
 
    `WF` (C01/Spec.v) is the property's statement on the model heap.  `step`/`run` (C01/Model.v)
-   are the modelled public API calls.  PROVED mutators (WF-preservation for every state and every
-   argument): the Operation.operands setter, OpOperands.__setitem__, OpSuccessors.__setitem__ (any index, negative ones included,
-   after fix f198beb), SSAValue.replace_all_uses_with, replace_uses_with_if, erase (and the PatternRewriter
-   methods replace_all_uses_with / replace_uses_with_if), Block.insert_op_after, Block.insert_op_before, Block.add_op, Block.detach_op,
-   Operation.detach, Region.detach_block (by block and by index), and -- for a SINGLE block --
-   Region.add_block, Region.insert_block_before, Rewriter.insert_block; the primitives IRWithUses.add_use / remove_use are proved against the use-list
-   invariant `Uabs`.  ALL OTHER modelled mutators (see the constructor list of `call`) are covered by
-   the lock-step correspondence with the real code plus the evaluation of the proved-sound checker
-   `wf_b` on the model state after every call of every generated history -- not by a theorem. *)
+   are the modelled public API calls (55 constructors of `call`).
+
+   PROVED (WF-preservation of a non-raising call, for every state and every argument; 46 of the 55
+   constructors = `proved_call`, assembled in C01_step_preserves / C01_history):
+     creation      Operation.create, Block(ops, arg_types), Region(blocks), Builder.create_block
+     use lists     Operation.operands setter, Operation.successors setter, OpOperands.__setitem__,
+                   OpSuccessors.__setitem__ (any index; code after fix f198beb), SSAValue.replace_all_uses_with,
+                   replace_uses_with_if, SSAValue.erase, PatternRewriter.replace_all_uses_with / replace_uses_with_if
+                   (IRWithUses.add_use / remove_use as pointer lemmas against the invariant Uabs)
+     block args    Block.insert_arg, Block.erase_arg, PatternRewriter.insert_block_argument / erase_block_argument
+     ops in blocks Block.insert_op_after, insert_op_before, add_op, add_ops, insert_ops_before, insert_ops_after,
+                   detach_op, Operation.detach, Rewriter.insert_op (and PatternRewriter.insert)
+     blocks in regions  Region.add_block, insert_block_before, insert_block_after, insert_block (lists of any
+                   length), Rewriter.insert_block, Region.detach_block (block or index), Region.move_blocks,
+                   move_blocks_before, Rewriter.inline_region, Rewriter.move_region_contents_to_new_regions
+     regions in ops Operation.add_region, detach_region (region or index; code after fix 9351131)
+     erase         Operation.erase, Block.erase_op, Rewriter.erase_op (PatternRewriter.erase) -- ONLY for an
+                   operation WITHOUT regions (hypothesis in args_live)
+   Each constructor carries the liveness precondition `args_live` ("erased objects are not used again").
+   The history theorem carries the invariant Inv = WF /\ parents_ok; parents_ok (parent pointers of live
+   nodes name allocated ids) is an auxiliary fact needed by the creation calls.
+
+   NOT PROVED (covered only by the lock-step correspondence with the real code + evaluation of the
+   proved-sound checker wf_b on the model after every call of every generated history):
+     erase of an operation WITH regions, Block.erase, Region.erase_block (block / index), Region.erase,
+     public drop_all_references (op / block / region), Block.split_before, Rewriter.replace_op,
+     PatternRewriter.replace, Rewriter.replace_value_with_new_type, Rewriter.inline_block. *)
 From Coq Require Import ZArith List Bool PArith FMapPositive.
 From XV Require Import C01.Model C01.Spec C01.ProofsWfb C01.ProofsFrame C01.ProofsUses C01.ProofsOperands
   C01.ProofsRauw C01.ProofsSetOperands C01.ProofsSetSuccessors C01.ProofsDll C01.ProofsOps C01.ProofsBlocks
-  C01.ProofsOpRegions C01.ProofsMove C01.ProofsOpLists C01.ProofsBlockLists C01.ProofsArgs C01.ProofsCreate C01.ProofsInv C01.ProofsHistory C01.ProofsDemo.
+  C01.ProofsOpRegions C01.ProofsMove C01.ProofsOpLists C01.ProofsBlockLists C01.ProofsArgs C01.ProofsCreate C01.ProofsInv C01.ProofsErase C01.ProofsReplaceType C01.ProofsHistory C01.ProofsDemo.
 Import ListNotations.
 Local Open Scope Z_scope.
 
@@ -231,6 +249,31 @@ Theorem C01_pr_erase_block_argument_preserves : forall s s' arg safe r,
   pr_erase_block_argument arg safe s = (s', Ok r) -> WF s'.
 Proof. exact pr_erase_block_argument_WF. Qed.
 Print Assumptions C01_pr_erase_block_argument_preserves.
+
+Theorem C01_replace_value_with_new_type_preserves : forall s s' val v,
+  WF s -> val_live s val -> rw_replace_value_with_new_type val s = (s', Ok v) -> WF s'.
+Proof. exact rw_replace_value_with_new_type_WF. Qed.
+Print Assumptions C01_replace_value_with_new_type_preserves.
+
+(* successful erase of an operation WITHOUT regions (detach + drop_all_references + erase of every result) *)
+Theorem C01_op_erase_noregions_preserves : forall s s' o x safe r,
+  WF s -> PM.find o (s_ops s) = Some x -> o_erased x = false -> o_regions x = [] ->
+  op_erase o safe true s = (s', Ok r) -> WF s'.
+Proof. exact op_erase_noregions_WF. Qed.
+Print Assumptions C01_op_erase_noregions_preserves.
+
+Theorem C01_erase_op_noregions_preserves : forall s s' b o x safe r,
+  WF s -> blk_live s b -> PM.find o (s_ops s) = Some x -> o_erased x = false -> o_regions x = [] ->
+  erase_op b o safe s = (s', Ok r) -> WF s'.
+Proof. exact erase_op_noregions_WF. Qed.
+Print Assumptions C01_erase_op_noregions_preserves.
+
+Theorem C01_rw_erase_op_noregions_preserves : forall s s' o x safe r,
+  WF s -> PM.find o (s_ops s) = Some x -> o_erased x = false -> o_regions x = [] ->
+  (forall b, o_parent x = Some b -> blk_live s b) ->
+  rw_erase_op o safe s = (s', Ok r) -> WF s'.
+Proof. exact rw_erase_op_noregions_WF. Qed.
+Print Assumptions C01_rw_erase_op_noregions_preserves.
 
 (* creation.  WF alone does not exclude a live node whose parent field names an id that is not
    allocated yet; the creation calls therefore need the auxiliary invariant `parents_ok` (parent
